@@ -201,6 +201,11 @@ def gen_scripts(prop, tier, rng):
     return S
 
 
+def twins_sig(n, rng):
+    from . import twins
+    return twins.sig(n, rng)
+
+
 def noop_twin_scripts(prop, tier, rng):
     """C12/C13: an instance that also receives rejected calls vs a twin that never saw them
     (TraceTwin.TwinFull: identical results, counts, getters and bit-identical outputs)."""
@@ -215,7 +220,7 @@ def noop_twin_scripts(prop, tier, rng):
                 b["maxrel"] = {"p": 11, "q": 10}
             if b.get("F") == 1:
                 b["F"] = 2
-            b["signal"] = "noise"
+            twins_sig(b, rng)
             b.pop("probe", None)
             ops = [dict(b, id=0), dict(b, id=1), {"op": "note", "twin": "full", "a": 0, "b": 1}]
             for o in h[1:]:
@@ -278,7 +283,7 @@ def rel_abs_twin_scripts(tier, rng):
                 maxrel = Fraction(2)
             if b.get("F") == 1:
                 b["F"] = 2
-            b["signal"] = "noise"
+            twins_sig(b, rng)
             b.pop("probe", None)
             rels = [x for x in gen.in_range_rels(maxrel) if x.denominator & (x.denominator - 1) == 0]
             b["chunk"] = min(b["chunk"], 256)
